@@ -194,6 +194,9 @@ def run(ctx):
                 for kind in ["Uniform", "StudentT", "Laplace", "LogNormal", "HalfNormal", "TruncatedNormal", "SkewNormal",
                              "Cauchy", "Deterministic", "Constant", "Float"]:
                     attempt(dict(base, lin_kind={nm: kind}), False, "non-Normal-linear-prior:" + kind, nm)
+                    if nm != "K" and kind in ("Uniform", "StudentT", "HalfNormal", "Deterministic"):
+                        # ... also next to the package's own (valid, non-Normal-class) FixedCompanionMass prior on K
+                        attempt(dict(base, kdefault=True, lin_kind={nm: kind}), False, "non-Normal-linear-prior-with-default-K:" + kind, nm)
         # double corruptions (seeded)
         rng = ctx.rng(poly, noff)
         for _ in range(ctx.n(6, 25)):
